@@ -12,6 +12,27 @@ CHECKS = {
         note="Trusted: the reference machine and the generator's well-definedness rules (unspecified values compare as wildcards; a run whose control flow depends on one is discarded and counted); operator evaluated after operands as the implementation does.",
         design="§5 C01, §4.1",
     ),
+    "C02": dict(
+        category="exploration",
+        technique="deterministic simulation: scope skeletons (complete enumeration up to depth 2 over two names, seeded sampling to depth 4 over three) run under several seeded closure-slot layouts, collection schedules and slices, read log compared with the reference machine's environment model",
+        text="Every binding combination of two names over one and two nested procedure levels x five closure-use modes is enumerated with canonical read/set/read actions; deeper and wider skeletons are sampled. Each skeleton is compiled under four closure-slot orders (the order comes from a randomised hash set in production; hook H4 makes it a seeded choice) with collections and slicing composed, and the logged (tag . value) reads, the results of later calls and the final globals must equal the reference machine's.",
+        note="Trusted: the reference machine's environment model; hook H4 permutes exactly the two symbol sets the compiler derives slot order from.",
+        design="§5 C02",
+    ),
+    "C05": dict(
+        category="exploration",
+        technique="deterministic simulation of sessions with first-class continuations: seeded histories in which later top-level forms re-enter stored continuations, under collection schedules and slicing, checked against a reference CEK machine with first-class continuations",
+        text="Sessions composed of 13 continuation templates (escape, re-entry from later forms, operand position with effects on both sides, tail capture, nested, inside map/for-each, mutation since capture, re-entry from loops ...) with the continuation stored in a global, vector, pair, closure or list and re-entered 0-3 times; the value, failure and output of every form must equal the reference machine's. Half of the runs add forced collections (continuations are kept alive by the marker only), a third are sliced. Sampling.",
+        note="Trusted: the reference machine (persistent frame list as continuation).",
+        design="§5 C05",
+    ),
+    "C07": dict(
+        category="fault_enumeration",
+        technique="deterministic simulation with fault injection: a failure of each kind injected at every expression position of a chosen form in turn, bursts of up to 1000 consecutive failures; reference machine, never-failed twin VM and stack/heap monitors as oracles",
+        text="For each generated session the form with most expression positions gets a failure injected at each position in turn (seven kinds rotating: unbound variable, type, arity, user error, non-procedure, compile-time syntax, read error). The reference machine predicts every later form from the completed effects; a fresh twin VM in which the failing forms are escape variants must give the same later values, failures and stack-trace frames; the stack pointer must be at rest after every form; bursts k in {1,10,100,1000} x depth {0,3,50} x kind must not grow stack capacity or post-collection heap use beyond 10 failures and must leave stack traces equal to a fresh VM's.",
+        note="Positions are enumerated per chosen form (capped at 24/64 per form, seeded subset beyond); programs are sampled. Trusted: reference machine; the escape-variant construction of the twin.",
+        design="§5 C07",
+    ),
     "C03": dict(
         category="exploration",
         technique="deterministic simulation: seeded search over collection schedules at VM instruction boundaries, differential twin with collections suppressed, independent heap audit after every collection",
